@@ -8,10 +8,12 @@ package main
 //   kind=backup    by a real Store.Backup whose destination writer stalls for d,
 //   kind=snapshot  by real user-requested Store.Snapshot calls racing with Close,
 //   kind=free      by nobody,
+//   kind=restart   by the start-up integrity check of a reopened store (80 MB database file),
 // with the close call placed at an offset o after the holder took the gate.  Every hook
 // event of the gate (cas.begin / cas.end, emitted under its mutex) is time-stamped on
 // arrival; one "case" line per run carries, in ticks of 10 ms since the case began:
 //   t0   Close called            gate  Close obtained the gate (cas.begin owner=close ok)
+//   ready Close's first attempt on the gate (after its optional snapshot-on-close)
 //   ret  Close returned          rel   the last release of the gate by anybody else before
 //                                      `gate` (ok) / the holder's release (failed close)
 // TraceCloseGate.tla evaluates Prompt / MayFail of CloseGate.tla on these values.
@@ -73,7 +75,7 @@ func closeGate(args []string) error {
 	fs := flag.NewFlagSet("closegate", flag.ExitOnError)
 	out := fs.String("out", "trace.ndjson", "")
 	dursF := fs.String("durs", "0,50,500,2000", "holder durations in ms")
-	kindsF := fs.String("kinds", "export,backup,snapshot,free", "")
+	kindsF := fs.String("kinds", "export,backup,snapshot,free,restart", "")
 	par := fs.Int("par", 4, "cases run concurrently")
 	fs.Parse(args)
 	quietLogs()
@@ -119,6 +121,8 @@ func closeGate(args []string) error {
 			}
 		case "free":
 			cases = append(cases, cgCase{"free", 0, 0, false}, cgCase{"free", 0, 0, true})
+		case "restart":
+			cases = append(cases, cgCase{"restart", 0, 0, true})
 		}
 	}
 
@@ -238,6 +242,25 @@ func runCloseCase(dir, name string, c cgCase, evs func() []cgEvent) (map[string]
 				st.Snapshot(0)
 			}
 		}()
+	case "restart":
+		// the start-up integrity check (CRC32 of the database file against the clean-snapshot
+		// fingerprint) holds the gate asynchronously after Open: grow the file, close with a
+		// snapshot (writes the fingerprint), reopen, and close at once
+		for i := 0; i < 80; i++ {
+			if _, _, err := sExec(st, false, "INSERT INTO t(v) VALUES (zeroblob(1000000))"); err != nil {
+				return nil, err
+			}
+		}
+		n2, err := n.Restart()
+		if err != nil {
+			return nil, fmt.Errorf("restart: %w", err)
+		}
+		cl.nodes[0] = n2
+		st = n2.Store
+		cas = st.VerifSnapshotCAS()
+		vhook.Name(cas, name)
+		base = time.Now()
+		close(holderDone)
 	default:
 		close(holderDone)
 	}
@@ -257,8 +280,14 @@ func runCloseCase(dir, name string, c cgCase, evs func() []cgEvent) (map[string]
 		return nil, errors.New("holder never finished")
 	}
 	// reconstruct from the gate's own events
-	var gate, rel time.Time
+	var gate, rel, ready time.Time
 	all := evs()
+	for _, e := range all {
+		if e.ev == "cas.begin" && e.owner == "close" && !e.at.Before(t0) {
+			ready = e.at // Close reached the gate (its own snapshot-on-close, if any, is over)
+			break
+		}
+	}
 	for i, e := range all {
 		if e.ev == "cas.begin" && e.owner == "close" && e.ok && !e.at.Before(t0) {
 			gate = e.at
@@ -275,7 +304,7 @@ func runCloseCase(dir, name string, c cgCase, evs func() []cgEvent) (map[string]
 	}
 	tries := 0
 	for _, e := range all {
-		if e.ev == "cas.begin" && e.owner == "close" {
+		if e.ev == "cas.begin" && e.owner == "close" && !e.at.Before(t0) {
 			tries++
 		}
 	}
@@ -287,7 +316,7 @@ func runCloseCase(dir, name string, c cgCase, evs func() []cgEvent) (map[string]
 	}
 	cl.Close()
 	line := map[string]any{"ev": "case", "kind": c.Kind, "d_ms": c.D.Milliseconds(), "o_ms": c.O.Milliseconds(), "snap_on_close": c.SnapOnClos,
-		"ok": ok, "t0": ticks(t0, base), "gate": ticks(gate, base), "ret": ticks(ret, base), "rel": ticks(rel, base), "tries": tries,
+		"ok": ok, "t0": ticks(t0, base), "ready": ticks(ready, base), "gate": ticks(gate, base), "ret": ticks(ret, base), "rel": ticks(rel, base), "tries": tries,
 		"wait_ms": ret.Sub(t0).Milliseconds()}
 	return line, nil
 }
